@@ -41,6 +41,7 @@ type frame struct {
 	panicking        bool
 	panic            any
 	phitemps         []Value
+	phiOverride      map[*ssa.Phi]Value
 	visits           map[*ssa.BasicBlock]int
 	callpos          token.Pos
 }
@@ -87,6 +88,8 @@ type Machine struct {
 	nowSeq    int
 	lastNow   *Term
 	tzOff     *Term
+	noIfConv  bool
+	ifConvAll bool
 	known     map[string]bool // known finding ids with status known
 	knownMode string          // "exclude" | "only:<id>"
 	rows      map[*Value]*sqlRows
@@ -411,6 +414,9 @@ func (m *Machine) visitInstr(fr *frame, instr ssa.Instruction) continuation {
 			if k := fr.visits[key]; k > m.unwind {
 				m.end(OutUnwind, "symbolic loop bound %d exceeded in %s (%s)", m.unwind, fr.fn, m.pos(instr.Pos()))
 			}
+		}
+		if sym && m.tryIfConvert(fr, c) {
+			return kJump
 		}
 		if m.decide(c) {
 			succ = 0
@@ -846,8 +852,13 @@ func executePhis(fr *frame) []ssa.Instruction {
 		fr.phitemps = fr.phitemps[:0]
 		for _, phi := range phis {
 			phi := phi.(*ssa.Phi)
+			if ov, ok := fr.phiOverride[phi]; ok {
+				fr.phitemps = append(fr.phitemps, ov)
+				continue
+			}
 			fr.phitemps = append(fr.phitemps, fr.get(phi.Edges[predIndex]))
 		}
+		fr.phiOverride = nil
 		for i, phi := range phis {
 			fr.env[phi.(*ssa.Phi)] = fr.phitemps[i]
 		}
